@@ -1,8 +1,16 @@
 (** Correspondence glue for C09: case records (inputs + what the implementation did) and the
     boolean checks evaluated inside Coq by the generated shards. *)
-From Coq Require Import List Bool ZArith NArith.
+From Coq Require Import List Bool ZArith NArith Ascii String.
 From DV Require Import Common.Str Common.Jv Common.Res Json.Model.
 Import ListNotations.
+
+(** Compact literals: a pure-ASCII text (what json.dumps emits) may be written in a shard as a Coq string
+    literal; [sos] turns it into the list of its code points. *)
+Fixpoint sos (s : String.string) : str :=
+  match s with
+  | String.EmptyString => []
+  | String.String a r => Ascii.N_of_ascii a :: sos r
+  end.
 
 Definition opt_jv_eqb (a b : option jv) : bool :=
   match a, b with
@@ -66,3 +74,56 @@ Definition check_ext (c : ext_case) : bool :=
 Definition show_ext (c : ext_case) :=
   (wfb (ec_content c), to_json (fun _ => ec_valid c) (ec_content c), to_str (ec_content c),
    match ec_to_json c with Ok t => parse t | Err _ => None end).
+
+(* -------------------------------------------------------------------------------------------- *)
+(** Part "ext_hist": a live extension object that has already been encoded or written once (or that
+    came out of a file) is edited in place through the DcmMeta API and written again, possibly twice.
+    One [save_point] per write: the content of the in-memory object at that moment, what to_json()/str()
+    said, the raw extension bytes found in the file (read from the file's extension section, not through
+    the object), and the content of the extension that NiftiWrapper.from_filename found in that file.
+    The model runs HEdit;HSave;HLoad per point, starting from a cache that holds the previous encoding. *)
+Record save_point := {
+  sp_content : jv;
+  sp_valid : res unit;
+  sp_to_json : res str;
+  sp_str : str;
+  sp_file : option str;          (* None: the write was refused or failed *)
+  sp_loaded : res jv
+}.
+
+Record hist_case := { hc_initial : jv; hc_touched : bool; hc_points : list save_point }.
+
+Definition hevent_eqb (a b : hevent) : bool :=
+  match a, b with
+  | EvNone, EvNone => true
+  | EvSaved x, EvSaved y => str_eqb x y
+  | EvRefused x, EvRefused y => err_eqb x y
+  | EvLoaded x, EvLoaded y => res_eqb jv_eqb x y
+  | _, _ => false
+  end.
+
+Definition ident_store (b : str) : option str := Some b.
+
+Fixpoint check_points (s : hstate) (ps : list save_point) : bool :=
+  match ps with
+  | [] => true
+  | p :: r =>
+    let cv := fun _ : jv => sp_valid p in
+    let s1 := fst (hstep cv ident_store s (HEdit (sp_content p))) in
+    let (s2, e2) := hstep cv ident_store s1 HSave in
+    let (s3, e3) := hstep cv ident_store s2 HLoad in
+    wfb (sp_content p)
+    && res_eqb str_eqb (to_json cv (sp_content p)) (sp_to_json p)
+    && str_eqb (to_str (sp_content p)) (sp_str p)
+    && hevent_eqb e2 (match sp_file p with Some b => EvSaved b | None => EvRefused ECrash end)
+    && hevent_eqb e3 (EvLoaded (sp_loaded p))
+    && check_points s3 r
+  end.
+
+Definition check_hist (c : hist_case) : bool :=
+  let s0 := {| h_obj := hc_initial c; h_raw := []; h_file := None |} in
+  let s1 := if hc_touched c then fst (hstep (fun _ => Ok tt) ident_store s0 HTouch) else s0 in
+  match hc_points c with [] => false | _ :: _ => check_points s1 (hc_points c) end.
+
+Definition show_hist (c : hist_case) :=
+  map (fun p => (wfb (sp_content p), print (sp_content p))) (hc_points c).
